@@ -30,6 +30,8 @@ ReT(s)  == [t |-> "re",  s |-> s, g |-> "T"]
 Bp(s)   == [t |-> "bp",  s |-> s, g |-> "L"]
 BpT(s)  == [t |-> "bp",  s |-> s, g |-> "T"]
 
+\* Non-ASCII characters must not travel through TLC state variables (states spilled to TLC's
+\* disk queue lose them); the renderer replaces the placeholder {MICRO} in dur tokens by U+00B5.
 \* a word operator (AND / OR) is a keyword token, every other operator is punctuation
 OpTok(o) == IF o \in {"AND", "OR"} THEN Kw(o) ELSE P(o)
 =============================================================================
